@@ -169,6 +169,8 @@ def confirm_ber(rep, r):
 
 def run(rep, tier):
     load_program(fresh=True)
+    from .c02 import params_check
+    params_check(rep, ('sigma', 'sigmin'))        # sigma_min / sigma of both variants: the range the sampler is called with
     rb = ber_exp_scen()
     rep.extra.setdefault('mir_hashes', {}).update(rb['mir_hash'])
     rep.states += rb['paths']; rep.transitions += rb['steps']; rep.queries += rb['queries']; rep.solver_s += rb['solver_s']
